@@ -371,6 +371,58 @@ example : decodeHosts (.seq [hostEntrySep (true, "a".toList, ["1.2.3.4".toList])
     = some (.map [("a", .seq [.str "1.2.3.4"]), ("b", .seq [.str "::1"]), ("c", .seq [.str "10.0.0.1"])]) := by rfl
 
 
+/-- `extra_hosts`, list syntax ≡ mapping syntax **whatever the bracket spelling of each address on either side**: the list
+`["host=a1,a2", …]` in which every address is written bare or as `[a]` (flags `.1`) and the mapping `{host: [a1, a2], …}`
+in which every address is again written bare or as `[a]` (flags `.2.1`, chosen independently) decode to the same
+`HostsList` — the one with the bare addresses — or are rejected alike (bad host name). -/
+theorem hostsList_list_eq_mapping (es : List (Str × List (Bool × Bool × Str)))
+    (hk : ∀ e ∈ es, ∀ x ∈ e.1, x ≠ '=')
+    (hips : ∀ e ∈ es, e.2 ≠ [] ∧ ∀ a ∈ e.2, BareAddr a.2.2)
+    (hnd : (es.map Prod.fst).Nodup) :
+    decodeHosts (.seq (es.map fun e => hostEntry (e.1, e.2.map fun a => addrSpelling a.1 a.2.2))) =
+      decodeHosts (.map (es.map fun e => hostMapEntry (e.1, e.2.map fun a => addrSpelling a.2.1 a.2.2))) ∧
+    decodeHosts (.map (es.map fun e => hostMapEntry (e.1, e.2.map fun a => addrSpelling a.2.1 a.2.2))) =
+      hostsCleanup (es.map fun e => (String.ofList e.1, e.2.map fun a => a.2.2)) := by
+  have key : ∀ (f : Bool × Bool × Str → Bool),
+      decodeHosts (.map (es.map fun e => hostMapEntry (e.1, e.2.map fun a => addrSpelling (f a) a.2.2))) =
+        hostsCleanup (es.map fun e => (String.ofList e.1, e.2.map fun a => a.2.2)) := by
+    intro f
+    have h2 := hostsOfMap_entries (es.map fun e => (e.1, e.2.map fun a => addrSpelling (f a) a.2.2))
+    simp only [List.map_map, Function.comp_def] at h2
+    simp only [decodeHosts, h2, Option.bind_some, hostsCleanup, List.any_map, Function.comp_def, List.map_map]
+    congr 2
+    apply congrArg
+    apply List.map_congr_left
+    intro e he
+    congr 2
+    apply List.map_congr_left
+    intro a ha
+    obtain ⟨hne, hb, _⟩ := (hips e he).2 a ha
+    rw [stripBrackets_spelling _ _ hne hb, hb]
+  refine ⟨?_, key (fun a => a.2.1)⟩
+  have hl := kv_list_eq_map_HostsList (es.map fun e => (e.1, e.2.map fun a => addrSpelling a.1 a.2.2))
+    (by
+      intro e he
+      obtain ⟨e0, he0, rfl⟩ := List.mem_map.1 he
+      exact hk e0 he0)
+    (by
+      intro e he
+      obtain ⟨e0, he0, rfl⟩ := List.mem_map.1 he
+      refine ⟨by simpa using (hips e0 he0).1, ?_⟩
+      intro ip hip
+      obtain ⟨a, ha, rfl⟩ := List.mem_map.1 hip
+      exact bracketed_comma_free _ _ ((hips e0 he0).2 a ha).2.2)
+    (by simpa [List.map_map, Function.comp_def] using hnd)
+  simp only [List.map_map, Function.comp_def] at hl
+  rw [hl, key (fun a => a.1), key (fun a => a.2.1)]
+
+/-- non-vacuity: `["h=[::1],fe80::1"]` and `{h: ["::1", "[fe80::1]"]}` are the same `HostsList` `h ↦ [::1, fe80::1]` -/
+example : decodeHosts (.seq [hostEntry ("h".toList, ["[::1]".toList, "fe80::1".toList])])
+    = decodeHosts (.map [hostMapEntry ("h".toList, ["::1".toList, "[fe80::1]".toList])]) := by rfl
+
+example : BareAddr "::1".toList := by refine ⟨by decide, by decide, by decide⟩
+
+
 /-- non-vacuity: `["h=1.2.3.4,[::1]"]` and `{h: ["1.2.3.4", "[::1]"]}` both decode to `h ↦ [1.2.3.4, ::1]` -/
 example : decodeHosts (.seq [hostEntry ("h".toList, ["1.2.3.4".toList, "[::1]".toList])])
     = some (.map [("h", .seq [.str "1.2.3.4", .str "::1"])]) := by rfl
